@@ -1121,9 +1121,10 @@ LIN_KINDS = [("add", 8), ("sub", 8), ("add_assign", 6), ("sub_assign", 6), ("neg
              ("rescale", 6), ("rescale_assign", 4), ("align", 3),
              ("add_pt_znx", 4), ("sub_pt_znx", 3), ("add_pt_znx_assign", 3), ("sub_pt_znx_assign", 3)]
 MUL_KINDS = [("mul", 8), ("mul_assign", 4), ("square", 4), ("square_assign", 2), ("mul_pt_znx", 5), ("mul_pt_znx_assign", 3),
-             ("add_many", 5), ("dot_ct", 8), ("dot_pt_znx", 4), ("rot", 4), ("rot_assign", 2), ("conj", 3), ("conj_assign", 2)]
+             ("mul_add_ct", 4), ("mul_sub_ct", 3), ("mul_add_pt_znx", 3), ("mul_sub_pt_znx", 3),
+             ("add_many", 5), ("mul_many", 5), ("dot_ct", 8), ("dot_pt_znx", 4), ("rot", 4), ("rot_assign", 2), ("conj", 3), ("conj_assign", 2)]
 NEEDS_ATK = ("rot", "rot_assign", "conj", "conj_assign")
-NEEDS_KEY = ("mul", "mul_assign", "square", "square_assign", "dot_ct")
+NEEDS_KEY = ("mul", "mul_assign", "square", "square_assign", "dot_ct", "mul_add_ct", "mul_sub_ct", "mul_many")
 
 
 def data_programs(rng, count, max_steps, with_mul=False):
@@ -1174,7 +1175,7 @@ def data_programs(rng, count, max_steps, with_mul=False):
                 cd = sim.pool[d]
                 ca = sim.pool[a]
                 bits = rng.choice([0, 1, 3, rng.range(0, 2 * q)])
-                if name in ("add", "sub", "mul"):
+                if name in ("add", "sub", "mul", "mul_add_ct", "mul_sub_ct"):
                     c = [name, d, a, b]
                 elif name in ("mul_assign", "square", "conj"):
                     c = [name, d, a]
@@ -1184,11 +1185,11 @@ def data_programs(rng, count, max_steps, with_mul=False):
                     c = [name, d, a, rng.choice([1, 3])]
                 elif name == "rot_assign":
                     c = [name, d, rng.choice([1, 3])]
-                elif name in ("mul_pt_znx", "mul_pt_znx_assign", "dot_pt_znx"):
+                elif name in ("mul_pt_znx", "mul_pt_znx_assign", "dot_pt_znx", "mul_add_pt_znx", "mul_sub_pt_znx"):
                     src = cd if name == "mul_pt_znx_assign" else ca
                     pd_ = rng.range(2, min(30, max(2, src.b)))
                     pb_ = rng.range(0, q)
-                    if name == "mul_pt_znx":
+                    if name in ("mul_pt_znx", "mul_add_pt_znx", "mul_sub_pt_znx"):
                         c = [name, d, a, pd_, pb_, q]
                     elif name == "mul_pt_znx_assign":
                         c = [name, d, pd_, pb_, q]
@@ -1197,6 +1198,8 @@ def data_programs(rng, count, max_steps, with_mul=False):
                         c = [name, d, k_] + [rng.choice(others) for _ in range(k_)] + [pd_, pb_, q]
                 elif name == "add_many":
                     c = [name, d] + [rng.choice(others) for _ in range(rng.range(1, 4))]
+                elif name == "mul_many":
+                    c = [name, d] + [rng.choice(others) for _ in range(rng.range(1, 5))]
                 elif name == "dot_ct":
                     k_ = rng.range(1, 3)
                     c = [name, d, k_] + [rng.choice(others) for _ in range(2 * k_)]
@@ -1351,6 +1354,12 @@ def data_scenarios():
             (f"{s_}:{d}:{cap-d}/{s_}:{d}:{cap-d}/{s_}:0:0/{s_-1}:0:0", "mul,2,0,1;mul,3,0,1;square,2,0;mul_assign,2,0;square_assign,2"),
             # unequal budgets and deltas
             (f"{s_}:{d}:{cap-d}/{s_}:{d+3}:{cap-d-3-q}/{s_}:0:0", "mul,2,0,1;mul,2,1,0;mul_pt_znx,2,0,%d,%d,%d;mul_pt_znx_assign,2,%d,0,%d" % (d, q, q, d, q)),
+            # mul_add / mul_sub: the product goes to a temporary, then the normalising in-place sum (destination budget above / below the product's)
+            (f"{s_}:{d}:{cap-d}/{s_}:{d}:{cap-d}/{s_}:{d}:{cap-2*d-q}/{s_-1}:{d}:{q}",
+             "mul_add_ct,2,0,1;mul_sub_ct,2,1,0;mul_add_ct,3,0,1;mul_add_pt_znx,2,0,%d,%d,%d;mul_sub_pt_znx,3,1,%d,0,%d" % (d, q, q, d, q)),
+            # mul_many: one input (aligned copy), two (a product), three to five (product tree into scratch ciphertexts)
+            (f"{s_+2}:{d}:{(s_+2)*q-d}/{s_+2}:{d}:{(s_+2)*q-d}/{s_+2}:{d}:{(s_+2)*q-d-3}/{s_+2}:0:0/{s_}:0:0",
+             "mul_many,3,0;mul_many,3,0,1;mul_many,3,0,1,2;mul_many,4,0,1,2,0;mul_many,3,0,1,2,1,0"),
             # add_many: one input, two, three with different budgets
             (f"{s_}:{d}:{cap-d}/{s_}:{d}:{cap-d-7}/{s_}:{d}:{cap-d-q-2}/{s_}:0:0/{s_-1}:0:0", "add_many,3,0;add_many,3,0,1;add_many,3,0,1,2;add_many,4,2,1,0,1"),
             # dot products: aligned sides; crossed budgets (uniform delta per side): the fused path rescales into buffers
@@ -1374,6 +1383,146 @@ def data_scenarios():
     return out
 
 
+def _rha(M, sft):
+    """round(M * 2^sft), halves away from zero (f64::round / roundq)"""
+    if sft >= 0:
+        return M << sft
+    d = 1 << (-sft)
+    q, r = divmod(abs(M), d)
+    a = q + (1 if 2 * r >= d else 0)
+    return -a if M < 0 else a
+
+
+def _fmt_val(M, e):
+    """exact `m:e` terms for the harness (mantissa chunks of 56 bits; the sum is exact when |M| < 2^p)"""
+    if M == 0:
+        return "0:0"
+    sg = -1 if M < 0 else 1
+    a = abs(M)
+    terms = []
+    sh = 0
+    while a:
+        lo = a & ((1 << 56) - 1)
+        if lo:
+            terms.append(f"{sg * lo}:{e + sh}")
+        a >>= 56
+        sh += 56
+    return "+".join(reversed(terms))
+
+
+def toznx_cases(rng, count):
+    """inputs of the float → integer conversion around every boundary of `to_znx` / `to_znx_at_k`"""
+    out = []
+    for k in range(count):
+        fl = "f128" if rng.range(0, 2) == 0 else "f64"
+        p = 113 if fl == "f128" else 53
+        maxprec = p
+        b = rng.choice([17, 19, 52])
+        form = "cst" if rng.range(0, 3) == 0 else "vec"
+        delta = rng.choice([0, 1, rng.range(2, maxprec), rng.range(2, maxprec), rng.range(2, 53), maxprec, maxprec + 1]) if rng.range(0, 9) == 0 else rng.range(0, maxprec)
+        tgt = rng.choice([rng.range(1, 40), 62, 63, 64, 65, rng.range(64, 127), 126, 127, 128, 129, 130, rng.range(129, 400), 0])
+        if form == "vec":
+            budget = max(0, tgt - delta) if rng.range(0, 4) else rng.range(0, 12)
+            effk = delta + budget
+            kk = 0
+        else:
+            kk = tgt if rng.range(0, 4) else rng.range(0, delta + 1)
+            budget = max(0, kk - delta)
+            effk = max(kk, delta)
+        W = 63 if delta + budget <= 63 else 127
+        nvals = rng.choice([2, 4]) if form == "vec" else 2
+        vals, classes = [], []
+        benign = rng.range(0, 1) == 0          # half of the lines: only values the conversion should accept
+        for _ in range(nvals):
+            c = (rng.choice(["small", "small", "half", "limit", "limit", "limit", "absent"]) if benign else
+                 rng.choice(["small", "half", "limit", "cap", "cap", "cap", "huge", "nan", "inf", "absent"]))
+            if c == "absent" and form == "vec":
+                c = "small"
+            sg = rng.choice([1, -1])
+            if c == "small":
+                v = ("fin", sg * rng.range(0, 1 << rng.range(1, min(p, 50))), -delta - rng.range(0, 4) + rng.range(0, 3))
+            elif c == "half":
+                v = ("fin", sg * (2 * rng.range(0, 1 << 20) + 1), -delta - 1)
+            elif c == "limit":      # around the magnitude limit of the metadata: |x * 2^delta| ~ 2^(effk-1)
+                t = max(effk - 1, 0)
+                M = rng.choice([1 << (p - 1), (1 << p) - 1, (1 << (p - 1)) + 1, (1 << p) - rng.range(1, 1 << 10)])
+                e = rng.choice([t - p, t - p + 1, t - p - 1]) - delta if M != 1 << (p - 1) else rng.choice([t - p + 1, t - p, t - p + 2]) - delta
+                v = ("fin", sg * M, e)
+            elif c == "cap":        # around the range of the integer type the path selects
+                M = rng.choice([1 << (p - 1), (1 << p) - 1, (1 << (p - 1)) + 1, (1 << p) - rng.range(1, 1 << 10)])
+                e = (W - p if M != 1 << (p - 1) else W - p + 1) + rng.choice([0, 0, 0, -1, 1]) - delta
+                v = ("fin", sg * M, e)
+            elif c == "huge":
+                v = ("fin", sg * rng.range(1, 1 << 20), W - delta + rng.range(0, 800))
+            elif c == "nan":
+                v = ("nan",)
+            elif c == "inf":
+                v = ("inf", sg < 0)
+            else:
+                v = None
+            vals.append(v)
+            classes.append(c)
+        if form == "cst" and vals[0] is None and vals[1] is None and rng.range(0, 2):
+            vals[0] = ("fin", 1, 0)
+        def show(v):
+            if v is None:
+                return "-"
+            if v[0] == "nan":
+                return "nan"
+            if v[0] == "inf":
+                return "-inf" if v[1] else "inf"
+            return _fmt_val(v[1], v[2])
+        conv, inr, ints = [], [], []
+        for v in vals:
+            if v is None:
+                continue
+            if v[0] != "fin":
+                conv.append(False); inr.append(False); ints.append(None)
+                continue
+            iv = _rha(v[1], v[2] + delta)
+            ints.append(iv)
+            conv.append(-(1 << W) <= iv < (1 << W))
+            inr.append(effk >= 1 and abs(iv) < (1 << (effk - 1)))
+        size = div_ceil(effk if form == "vec" else kk, b)
+        if form == "vec":
+            heads = delta <= maxprec and size > 0
+        else:
+            heads = delta <= maxprec and not (kk == 0 and any(v is not None for v in vals))
+        line = (f"toznx float={fl} form={form} base2k={b} delta={delta} budget={budget} k={kk} vals=" + ";".join(show(v) for v in vals))
+        out.append({"line": line, "float": fl, "form": form, "base2k": b, "delta": delta, "budget": budget, "k": kk, "effk": effk, "W": W,
+                    "path": W, "classes": classes, "convertible": conv, "in_range": inr, "ints": ints, "size": size, "passes_heads": heads,
+                    "present": [v is not None for v in vals]})
+    return out
+
+
+def toznx_expect(c):
+    """second reading of vec.rs / cst.rs: the outcome class"""
+    if not c["passes_heads"]:
+        return "err"
+    if c["float"] == "f64" and not all(c["convertible"]):
+        return "panic"
+    return "ok"
+
+
+def toznx_digits_ok(c, ans):
+    """digits ≡ value (mod 2^(b * limbs)), at the position the form encodes at, for every present coefficient"""
+    body = ans.split()[1]
+    b = c["base2k"]
+    cols = body.split(",") if c["form"] == "vec" else [x for x in body.split("/") if x != "-"]
+    if len(cols) != len(c["ints"]):
+        return False
+    for col, v in zip(cols, c["ints"]):
+        ds = [int(x) for x in col.split(".")]
+        tot = 0
+        for d in ds:
+            tot = (tot << b) + d
+        # to_znx_at_k encodes at k: the value sits k bits below the top, i.e. shifted left by b*limbs - k
+        sh = b * len(ds) - c["k"] if c["form"] == "cst" else 0
+        if sh < 0 or (tot - (v << sh)) % (1 << (b * len(ds))) != 0:
+            return False
+    return True
+
+
 def run(ctx):
     rng = ctx.rng
     quick = ctx.tier == "quick"
@@ -1383,7 +1532,9 @@ def run(ctx):
     ]
     ctx.assumptions += [
         "all ciphertexts and evaluation keys of a program share one radix and rank 1; scratch is ample (C12)",
-        "slot values are finite and inside the plaintext magnitude range (float → integer conversion succeeds)",
+        "program-level theorems: slot and constant values are finite with -2^W <= round(x*2^log_delta) < 2^W (W = 63 if log_delta+log_budget <= 63 else 127) — "
+        "the exact precondition of the float → integer conversion (Props/C16 §11: f64 panics, f128 saturates outside it); implied by the magnitude limit "
+        "of the metadata iff log_delta+log_budget <= 128",
         "value semantics (decrypt+decode vs complex arithmetic) is correspondence only: IEEE-754 arithmetic of the encoder and of FFT64 is outside the model",
     ]
     broken = []
@@ -1531,6 +1682,50 @@ def run(ctx):
                 unknown.append((req, 0, "roundtrip did not return ok: " + l))
         ctx.cov["roundtrip"] = {"cases": len(rt), "worst_encoder_log2_rel": worst_enc, "worst_quantised_log2_times_delta": worst_full, "bad": rt_bad}
 
+        # ---- float → integer conversion of to_znx / to_znx_at_k (Model/CkksConv.lean, Props/C16 §11)
+        tz = toznx_cases(rng.fork(), 400 if quick else 20000)
+        tstat = {"cases": len(tz), "ok": 0, "err": 0, "panic": 0, "mismatch": 0, "f128_saturated_or_nan": 0,
+                 "in_range_checked": 0, "in_range_beyond_int_path": 0, "in_range_bad_below_128": 0}
+        ids = [f"{k} ckks {c['line']}" for k, c in enumerate(tz)]
+        _, mo, _ = ctx.run_lines(drv, [], ids)
+        _, io, _ = ctx.run_lines(binp, ["ckks"], ids)
+        mo = {int(l.split()[0]): " ".join(l.split()[1:]) for l in mo if l.split()}
+        io = {int(l.split()[0]): " ".join(l.split()[1:]) for l in io if l.split()}
+        for k, c in enumerate(tz):
+            m, i = mo.get(k, "?"), io.get(k, "?")
+            kind = i.split()[0].split(":")[0]
+            tstat[kind] = tstat.get(kind, 0) + 1
+            ctx.count_case(("toznx", c["float"], c["form"], c["base2k"], c["path"], tuple(sorted(set(c["classes"]))), kind), nontrivial=True)
+            if m != i:
+                tstat["mismatch"] += 1
+                ctx.disagreements += 1
+                if tstat["mismatch"] == 1:
+                    ctx.violation("to_znx conversion: model and implementation differ", {"line": c["line"], "model": m[:300], "implementation": i[:300],
+                                  "rerun": f"echo '0 ckks {c['line']}' | harness/target/ovf/pvh ckks"}, True)
+                continue
+            want = toznx_expect(c)
+            if want != kind:
+                unknown.append((c["line"], 0, f"to_znx: documented outcome {want}, observed {i[:80]}"))
+                continue
+            if c["float"] == "f128" and kind == "ok" and any(not cv for cv in c["convertible"]):
+                tstat["f128_saturated_or_nan"] += 1
+            # value oracle on the inputs inside the magnitude limit the metadata declare
+            if c["passes_heads"] and all(c["in_range"]):
+                tstat["in_range_checked"] += 1
+                good = kind == "ok" and toznx_digits_ok(c, i)
+                if not good:
+                    if c["effk"] >= 128:
+                        tstat["in_range_beyond_int_path"] += 1
+                        findings.setdefault("to_znx:value-beyond-int-path", (c["line"], 0,
+                            f"{c['float']} {c['form']}: a value inside the magnitude limit of the declared metadata (|x| < 2^(log_budget-1), "
+                            f"log_delta+log_budget = {c['effk']} >= 128) but with |x*2^log_delta| >= 2^127 - 2^(base2k-1) "
+                            + ("panics (`to_i128().unwrap()` on None)" if kind == "panic" else "is stored as a different value (saturating cast / i128 carry wrap)")
+                            + f": {i[:120]}"))
+                    else:
+                        tstat["in_range_bad_below_128"] += 1
+                        unknown.append((c["line"], 0, f"to_znx: in-range value not encoded exactly: {i[:120]}"))
+        ctx.cov["toznx"] = tstat
+
         # ---- data tie: limbs after every call of the linear fragment (Model/CkksData.lean, Props/C16 §8)
         dl = (data_scenarios() + data_programs(rng.fork(), 60 if quick else 4000, 10 if quick else 14)
               + data_programs(rng.fork(), 40 if quick else 1500, 8 if quick else 10, with_mul=True))
@@ -1569,7 +1764,7 @@ def run(ctx):
     ctx.cov["values"] = vstats
     ctx.cov["finding_keys_seen"] = sorted(findings)
     for key, (line, s, what) in sorted(findings.items()):
-        if binp is not None and drv is not None and ctx.match_known(key) is None:
+        if binp is not None and drv is not None and ctx.match_known(key) is None and not key.startswith("to_znx:"):
             # not (yet) recorded: minimise and keep the program as a regression case
             line = shrink(ctx, binp, drv, line, lambda l, m, i: any(k2 == key for (_, k2, _) in oracle(l, i)))
             store_corpus(key.replace("/", "_").replace(":", "-").replace("*", "x"), line, what)
